@@ -607,6 +607,15 @@ theorem c08_translation_agrees_run_structure :
     Tr.other_breaker_writers = 0 := by
   decide
 
+/-- The `on_block` / `on_permit` callbacks are reached only from statements of `run()` that come after the
+    breaker-update block — never from the entry block, the `try` around the agent calls, its handler or a breaker
+    method.  This is what the model's `deliver` (callbacks in the tail of `run`, no access to `State`) assumes: a
+    callback that raises cannot keep a failure from being counted (asserted by the extractor on the source,
+    through the call graph; the seeded change that reports an agent crash to `on_block` before recording it
+    breaks this fact and `Tr.run_exception_records_failure`). -/
+theorem c08_callbacks_run_after_the_breaker_update : Tr.run_callbacks_after_update = true := by
+  decide
+
 /-- An agent exception is counted BEFORE the handler of `run` tries to render it: when an agent raises an
     `Exception` whose `__str__` raises, `run` itself raises (no reply) — and the request is a failure outcome all
     the same: the failure count and the total error count grow by one, the time is stamped as the last failure, and
